@@ -305,7 +305,50 @@ func boundedBy1(b *ssa.BasicBlock, base ssa.Value, off int64, x ssa.Value) bool 
 	if !nonNegative(b, base) {
 		return false
 	}
-	for _, cd := range controlConds(b) {
+	if boundedWith(controlConds(b), base, off, x) {
+		return true
+	}
+	// a value merged from several paths: bounded if it is bounded on every incoming edge
+	if phi, ok := base.(*ssa.Phi); ok && off == 0 && phi.Block() != nil {
+		all := len(phi.Edges) > 0
+		for i, e := range phi.Edges {
+			pred := phi.Block().Preds[i]
+			conds := condsOnEdge(pred, phi.Block())
+			ev, eoff := stripConv(e), int64(0)
+			okEdge := boundedWith(conds, ev, 0, x)
+			if !okEdge {
+				if bo, isBo := ev.(*ssa.BinOp); isBo && bo.Op == token.ADD && isConstInt(bo.Y, 1) {
+					ev, eoff = bo.X, 1
+					okEdge = boundedWith(conds, ev, eoff, x)
+				}
+			}
+			if !okEdge {
+				all = false
+			}
+		}
+		if all {
+			return true
+		}
+	}
+	return false
+}
+
+// condsOnEdge: conditions known when control flows from pred to succ.
+func condsOnEdge(pred, succ *ssa.BasicBlock) []cond {
+	out := controlConds(pred)
+	if ifi, ok := pred.Instrs[len(pred.Instrs)-1].(*ssa.If); ok && pred.Succs[0] != pred.Succs[1] {
+		if pred.Succs[0] == succ {
+			out = append(out, cond{ifi.Cond, true})
+		} else if pred.Succs[1] == succ {
+			out = append(out, cond{ifi.Cond, false})
+		}
+	}
+	// short-circuit chains: a block that only evaluates the second operand of && inherits the first operand's outcome
+	return out
+}
+
+func boundedWith(conds []cond, base ssa.Value, off int64, x ssa.Value) bool {
+	for _, cd := range conds {
 		bo, ok := cd.v.(*ssa.BinOp)
 		if !ok {
 			continue
@@ -325,7 +368,16 @@ func boundedBy1(b *ssa.BasicBlock, base ssa.Value, off int64, x ssa.Value) bool 
 		if op == token.GTR {
 			l, r, op = r, l, token.LSS
 		}
-		if op != token.LSS || stripConv(l) != base {
+		if op != token.LSS {
+			continue
+		}
+		// (base + off) < len(x), written as its own addition (SSA has no common-subexpression elimination)
+		if off > 0 {
+			if add, ok := stripConv(l).(*ssa.BinOp); ok && add.Op == token.ADD && stripConv(add.X) == base && isConstInt(add.Y, off) && lenOf(r, x) {
+				return true
+			}
+		}
+		if stripConv(l) != base {
 			continue
 		}
 		if off == 0 && lenOf(r, x) {
